@@ -99,7 +99,8 @@ for f in formats:
     funcs = []
     c = []
     c.append('/* generated by tools/gen_bindings.py from %s - do not edit */' % f['header'])
-    c.append('#include <stdint.h>\n#include <stddef.h>\n#include "%s"\n#include "bind.h"\n' % f['header'])
+    # (bind.h first: the layout of the binding tables must not depend on anything a repository header leaves behind)
+    c.append('#include <stdint.h>\n#include <stddef.h>\n#include "bind.h"\n#include "%s"\n' % f['header'])
 
     def argtype(a):
         a = re.sub(r'\b\w+$', '', a.replace('*', ' * ')).strip() if not a.strip().endswith('*') else a
@@ -310,8 +311,9 @@ if baseline is not None:
 for n in new_uncallable:
     warnings.append('new API: %s takes pointers or structures: no call is generated for it (NOT EXERCISED)' % n)
 ec = ['/* generated by tools/gen_bindings.py: pointer-free public functions that are not part of the baseline API */', '#include <stdint.h>', '#include <stddef.h>']
+ec += ['#include "bind.h"']
 ec += ['#include "%s"' % h for h in extra_hdrs]
-ec += ['#include "bind.h"'] + extra_code
+ec += extra_code
 ec.append('const BindExtra bind_extras[] = {')
 ec += ['  {"%s", %s, %d},' % r for r in extra_rows]
 ec.append('  {NULL, NULL, 0}\n};')
@@ -321,6 +323,14 @@ path = os.path.join(out, 'bind_extra.c')
 new = '\n'.join(ec) + '\n'
 if not os.path.exists(path) or open(path).read() != new:
     open(path, 'w').write(new)
+
+# every public header, in both orders (for the include-order variants of the drivers, tools/build_drv_variants.sh)
+_all = sorted(os.path.relpath(hp, inc) for hp in _glob.glob(os.path.join(inc, '**', '*.h'), recursive=True))
+for nm_, lst in (('all_headers_az.h', _all), ('all_headers_za.h', list(reversed(_all)))):
+    txt = '/* generated: all public headers */\n' + ''.join('#include "%s"\n' % h for h in lst)
+    pth = os.path.join(out, nm_)
+    if not os.path.exists(pth) or open(pth).read() != txt:
+        open(pth, 'w').write(txt)
 
 c = ['/* generated */', '#include "bind.h"']
 for n in all_tables:
